@@ -43,7 +43,12 @@ _BUILTINS = {"len": len, "int": int, "str": str, "min": min, "max": max, "abs": 
 
 
 class Evaluator:
-    def __init__(self, call: Optional[Callable] = None, max_steps: int = 2000):
+    LITERAL_METHODS = {"get", "startswith", "endswith", "lower", "upper", "strip", "keys", "values", "items", "index", "count", "__contains__"}
+
+    def __init__(self, call: Optional[Callable] = None, max_steps: int = 2000, consts: Optional[Callable] = None):
+        """``consts(dotted_name)`` -> AST of a module/class-level literal definition (or None); it is folded with
+        ``ast.literal_eval`` semantics through this evaluator (no names)."""
+        self.consts = consts
         self.call = call
         self.max_steps = max_steps
         self.steps = 0
@@ -56,6 +61,13 @@ class Evaluator:
             d = q.dotted(e)
             if d is not None and d in env:
                 return env[d]
+            if d is not None and self.consts is not None:
+                c = self.consts(d)
+                if c is not None:
+                    try:
+                        return ast.literal_eval(c)
+                    except (ValueError, SyntaxError):
+                        pass
             raise AnalysisError("x_eval: unbound name %s" % (d or q.unparse(e)))
         if isinstance(e, (ast.Tuple, ast.List)):
             vals = [self.expr(x, env) for x in e.elts]
@@ -168,6 +180,16 @@ class Evaluator:
                     return _BUILTINS[d](*args, **kwargs)
                 except (TypeError, ValueError) as ex:
                     raise _Raise(type(ex).__name__)
+            if isinstance(e.func, ast.Attribute) and e.func.attr in self.LITERAL_METHODS and not kwargs:
+                try:
+                    recv = self.expr(e.func.value, env)
+                except AnalysisError:
+                    recv = None
+                if isinstance(recv, (dict, str, bytes, tuple, list, frozenset)) and all(isinstance(a, (str, bytes, int, type(None), tuple)) for a in args):
+                    try:
+                        return getattr(recv, e.func.attr)(*args)
+                    except (TypeError, ValueError, KeyError, IndexError) as ex:
+                        raise _Raise(type(ex).__name__)
             if self.call is not None:
                 return self.call(d or q.unparse(e.func), args, kwargs, e, self)
             raise AnalysisError("x_eval: call %s is not modelled" % q.unparse(e.func))
@@ -298,3 +320,52 @@ def _load(t: ast.AST) -> ast.AST:
         if hasattr(n, "ctx"):
             n.ctx = ast.Load()
     return c
+
+
+class Opaque:
+    """Result of a call the rule chose not to model; using it in arithmetic/comparisons raises TypeError -> AnalysisError upstream."""
+
+    def __init__(self, what):
+        self.what = what
+
+    def __repr__(self):
+        return "<opaque %s>" % self.what
+
+
+def inline_call(repo, fi, name, args, kwargs, node, ev):
+    """Hook helper: evaluate a call of a same-module / same-class helper by inlining its body (positional and keyword
+    arguments, defaults folded).  Returns (True, value) or (False, None) when ``node`` is not such a call."""
+    from .x_resolve import callee
+
+    h = callee(repo, fi, node)
+    if h is None or h.node is fi.node:
+        return False, None
+    a = h.node.args
+    params = [x.arg for x in a.posonlyargs + a.args]
+    is_static = any(q.dotted(d) == "staticmethod" for d in h.node.decorator_list)
+    env = {}
+    if h.cls is not None and not is_static and params and params[0] in ("self", "cls"):
+        params = params[1:]
+    if len(args) > len(params):
+        raise AnalysisError("x_eval: too many arguments inlining %s" % h.qualname)
+    env.update(zip(params, args))
+    for k, v in kwargs.items():
+        if k not in params:
+            raise AnalysisError("x_eval: unknown keyword %s inlining %s" % (k, h.qualname))
+        env[k] = v
+    defaults = dict(zip(reversed([x.arg for x in a.posonlyargs + a.args]), reversed(a.defaults)))
+    for p_ in params:
+        if p_ not in env:
+            if p_ in defaults:
+                env[p_] = ev.expr(defaults[p_], {})
+            else:
+                raise AnalysisError("x_eval: missing argument %s inlining %s" % (p_, h.qualname))
+    saved = ev.steps
+    try:
+        try:
+            ev.block(h.node.body, env)
+        except _Return as r:
+            return True, r.value
+        return True, None
+    finally:
+        ev.steps = saved + 1
